@@ -209,9 +209,9 @@ class DistBeta(DistContinuous):
             raise TypeError(f"parameter alpha1 {alpha1} is not a float")
         if not isinstance(alpha2, (float, int)):
             raise TypeError(f"parameter alpha2 {alpha2} is not a float")
-        if alpha1 <= 0:
+        if not alpha1 > 0:
             raise ValueError(f"parameter alpha1 {alpha1} should be > 0")
-        if alpha2 <= 0:
+        if not alpha2 > 0:
             raise ValueError(f"parameter alpha2 {alpha2} should be > 0")
         self._alpha1 = float(alpha1)
         self._alpha2 = float(alpha2)
@@ -505,7 +505,7 @@ class DistErlang(DistContinuous):
             raise TypeError(f"parameter scale {scale} is not a float")
         if not isinstance(k, int):
             raise TypeError(f"parameter k {k} is not an int")
-        if scale <= 0:
+        if not scale > 0:
             raise ValueError(f"parameter scale {scale} <= 0")
         if k <= 0:
             raise ValueError(f"parameter k {k} <= 0")
@@ -596,7 +596,7 @@ class DistExponential(DistContinuous):
         super().__init__(stream)
         if not isinstance(mean, (float, int)):
             raise TypeError(f"parameter mean {mean} is not a float or int")
-        if mean <= 0:
+        if not mean > 0:
             raise ValueError(f"parameter mean {mean} <= 0")
         self._mean = float(mean)
         
@@ -662,9 +662,9 @@ class DistGamma(DistContinuous):
             raise TypeError(f"parameter shape {shape} is not a float")
         if not isinstance(scale, (float, int)):
             raise TypeError(f"parameter scale {scale} is not a float")
-        if shape <= 0:
+        if not shape > 0:
             raise ValueError(f"parameter shape {shape} should be > 0")
-        if scale <= 0:
+        if not scale > 0:
             raise ValueError(f"parameter scale {scale} should be > 0")
         self._shape = float(shape)
         self._scale = float(scale)
@@ -952,7 +952,7 @@ class DistNormal(DistContinuous):
             raise TypeError(f"parameter mu {mu} is not a float or int")
         if not isinstance(sigma, (float, int)):
             raise TypeError(f"parameter sigma {sigma} is not a float or int")
-        if sigma <= 0:
+        if not sigma > 0:
             raise ValueError(f"parameter sigma {sigma} should be > 0")
         self._mu: float = float(mu)
         self._sigma: float = float(sigma)
@@ -1072,7 +1072,7 @@ class DistNormalTrunc(DistContinuous):
             raise TypeError(f"parameter lo {lo} is not a float or int")
         if not isinstance(hi, (float, int)):
             raise TypeError(f"parameter hi {hi} is not a float or int")
-        if sigma <= 0:
+        if not sigma > 0:
             raise ValueError(f"parameter sigma {sigma} should be > 0")
         if hi <= lo:
             raise ValueError(f"parameter hi {hi} <= lo {lo}")
@@ -1319,9 +1319,9 @@ class DistPearson5(DistContinuous):
             raise TypeError(f"parameter alpha {alpha} is not a float / int")
         if not isinstance(beta, (float, int)):
             raise TypeError(f"parameter beta {beta} is not a float / int")
-        if alpha <= 0:
+        if not alpha > 0:
             raise ValueError(f"parameter alpha {alpha} <= 0")
-        if beta <= 0:
+        if not beta > 0:
             raise ValueError(f"parameter beta {beta} <= 0")
         self._alpha = float(alpha)
         self._beta = float(beta)
@@ -1402,11 +1402,11 @@ class DistPearson6(DistContinuous):
             raise TypeError(f"parameter alpha2 {alpha2} is not a float / int")
         if not isinstance(beta, (float, int)):
             raise TypeError(f"parameter beta {beta} is not a float / int")
-        if alpha1 <= 0:
+        if not alpha1 > 0:
             raise ValueError(f"parameter alpha1 {alpha1} <= 0")
-        if alpha2 <= 0:
+        if not alpha2 > 0:
             raise ValueError(f"parameter alpha2 {alpha2} <= 0")
-        if beta <= 0:
+        if not beta > 0:
             raise ValueError(f"parameter beta {beta} <= 0")
         self._alpha1 = float(alpha1)
         self._alpha2 = float(alpha2)
@@ -1502,7 +1502,7 @@ class DistPoisson(DistDiscrete):
         super().__init__(stream)
         if not isinstance(rate, (float, int)):
             raise TypeError(f"parameter rate {rate} is not a float / int")
-        if rate <= 0:
+        if not rate > 0:
             raise ValueError(f"parameter rate {rate} <= 0")
         self._rate = rate
         # helper variable to avoid repetitive calculation.
@@ -1759,9 +1759,9 @@ class DistWeibull(DistContinuous):
             raise TypeError(f"parameter alpha {alpha} is not a float / int")
         if not isinstance(beta, (float, int)):
             raise TypeError(f"parameter beta {beta} is not a float / int")
-        if alpha <= 0:
+        if not alpha > 0:
             raise ValueError(f"parameter alpha {alpha} <= 0")
-        if beta <= 0:
+        if not beta > 0:
             raise ValueError(f"parameter beta {beta} <= 0")
         self._alpha = float(alpha)
         self._beta = float(beta)
